@@ -10,6 +10,7 @@ type driver struct {
 	pre          func(c *core.Ctx) // runs outside the bubble, before run
 	needsStorage bool              // open the badger data dir and warm services up outside the bubble
 	noBubble     bool              // run on the real clock (real sockets, child processes)
+	cpuBudget    float64           // watchdog CPU budget per step (default 20 s)
 }
 
 var drivers = map[string]driver{}
